@@ -18,7 +18,7 @@ SPEC = {
         ("match(with a width the new column is re-pruned at the end of every step)", 'match', r'^loop:(new-column|no-pruning)'),
         ("_match_non_emitting_states(level loop: first level = live entries due in this round; the WHOLE level - postponed entries included - is continued at the next depth; the search stops only at an empty level or the depth bound; pruning of the layer and of the next column in every level)", 'ne_levels', r'(^levels:|^select:|::inv-(init|preserved)::)')],
     'bounded': [
-        ('pruned-vs-unpruned-and-widening', suites.case_C07, 1500, 25000, RULE + '; ' + 'non-trivial = at least one candidate was postponed', '')],
+        ('pruned-vs-unpruned-and-widening', suites.case_C07, 1500, 200000, RULE + '; ' + 'non-trivial = at least one candidate was postponed', '')],
 }
 
 
